@@ -58,6 +58,29 @@ class Info:
         ]:
             for d, ix in enumerate(dims):
                 self.dim_class.setdefault((name, d), set()).add(ix)
+        # index classes: union-find closure of "index the same (tensor, dimension)"; members of one
+        # class have equal dimension at run time (C10)
+        parent = {ix: ix for ix in self.index_names}
+
+        def find(x):
+            while parent[x] != x:
+                parent[x] = parent[parent[x]]
+                x = parent[x]
+            return x
+
+        for ixs in self.dim_class.values():
+            ixs = sorted(ixs)
+            for other in ixs[1:]:
+                parent[find(other)] = find(ixs[0])
+        self.index_class = {ix: find(ix) for ix in self.index_names}
+        self.class_members = {}
+        for ix, c in self.index_class.items():
+            self.class_members.setdefault(c, set()).add(ix)
+        for key in list(self.dim_class):
+            full = set()
+            for ix in self.dim_class[key]:
+                full |= self.class_members[self.index_class[ix]]
+            self.dim_class[key] = full
 
     def level_index(self, tensor, level, occurrence_levels):
         return occurrence_levels[level]
